@@ -244,7 +244,7 @@ snapshot to confirm that the defects repaired earlier are re-detected.
 
 * Coq 8.16.1 kernel and `vm_compute` (used to evaluate the model on cases, for finite truth tables lifted with
   `forallb_forall`, and for `_refuted`/example witnesses); no `native_compute`. `coqchk -o` over all `Props/*.vo`
-  (run by hand, ~9 min): "Axioms: <none>", no type-in-type, no unsafe fixpoints, no assumed positivity.
+  (run by hand, 5-9 min; last re-run after the round-6 merges over the 20 property files plus Sound and Comb): "Axioms: <none>", no type-in-type, no unsafe fixpoints, no assumed positivity.
   `Print Assumptions` of every property theorem: "Closed under the global context" (recorded per theorem in
   `evidence/Cxx.json` `coverage.axioms`). The development declares no Axiom/Parameter/Conjecture, has no
   Admitted/admit, uses no Program Fixpoint/Equations, switches off no kernel check; `harness/common.py:audit_sources`
@@ -375,7 +375,8 @@ replayable input and not a broken pin; {len(r6) - len(r6_open)} of {len(r6)} are
 False alarms met and corrected in the machinery while doing so (never listed as findings): C14 - `concatenate(defaults=...)`
 casts a fill value to the dtype of the field it fills (the new bool / unsigned data vectors are kept out of that op; a first
 're-evaluation' of C14 r6m3 had counted this alarm as a catch and was redone); C08 - an offset of 2**-30 under a QUADRATIC soft
-penalty is squared and no longer exact in binary64 (the tiny violations are now confined to hard linear constraints); C19 - the
+penalty is squared and no longer exact in binary64 (the tiny violations are now confined to hard linear constraints), and - under seed 1 only - an iterator of `(row, labels)`
+samples WITHOUT columns (an empty 1-d row cannot say whether it is one sample or none; that form now needs a column); C19 - the
 dict back-end moves a relabelled variable to the end of its order (labels compared as sets) and `copy.copy` of a class without
 `__copy__` is Python's shallow copy (used only where `__copy__` exists). `harness/seed_eval.py`
 now removes only the replay files of its own run, so evaluations can run next to registered checks.
